@@ -123,7 +123,10 @@ def _one(args):
             s = Sampler(lambda u: 2.0 * half * u - half, t["like"], t["d"], n_particles=t.get("n", cell["n"]), clustering=cell["clustering"],
                         sample=cell["kernel"], resample=cell["resample"], periodic=t["periodic"], reflective=t["reflective"])
             s.run(n_total=t.get("n_total", cell["n_total"]), progress=False)
-            x, w, l = s.posterior()
+            # the UNTRIMMED estimator: the default weight trimming is a deliberate truncation with its own recorded finding
+            # (F35_default_trim_bias) and its own bound (C01_trim_bias_le_ess); the ensemble oracle is about the mixture-
+            # importance estimator the statement's mechanism clauses describe
+            x, w, l = s.posterior(trim_importance_weights=False)
             est = float(np.sum(w * t["stat"](x)))
             return est, float(s.evidence()[0])
     except Exception as e:  # noqa
